@@ -265,6 +265,15 @@ func helpersExtra(view func(kvc.KV) logical.ClearableView) func(kvc.KV, map[stri
 		v := view(kv)
 		var want []string
 		for k := range ref {
+			if strings.HasSuffix(k, "/") {
+				// Domain of the recursive helpers: a listing cannot tell a key that ends in a
+				// slash from a folder (both show up with a trailing slash, the key itself as the
+				// empty child of its own prefix), so ScanViewPaginated / CollectKeys descend into
+				// it again and again (they do not terminate). Requests cannot create such keys
+				// (writes to a path with a trailing slash are refused), the helpers are only
+				// claimed on key sets without them; see DESIGN.md 8.5.
+				return nil
+			}
 			want = append(want, k)
 		}
 		sort.Strings(want)
@@ -507,7 +516,12 @@ func stacks(t *testing.T) []*kvc.Stack {
 		}
 		st.AfterOK = func(p, a string) bool { return true }
 		// one file per key: "_<last segment>" plus a ".temp" suffix while writing must fit NAME_MAX (255)
+		// and a key is a file path: a trailing slash (an empty last segment) names the same
+		// file as the key without it (filepath.Join cleans it away), outside the backend's domain
 		st.KeyOK = func(k string) bool {
+			if strings.HasSuffix(k, "/") {
+				return false
+			}
 			for _, seg := range strings.Split(k, "/") {
 				if len(seg) > 249 {
 					return false
